@@ -7,8 +7,9 @@
 EXTENDS MetricData, Json
 
 Trace == ndJsonDeserialize("trace.ndjson")
-VARIABLES l, types, before
-vars == <<types, before>>
+VARIABLES l, types, before,
+          flushed   \* [metric -> Seq(block)]: every block handed to the real flusher in this history
+vars == <<types, before, flushed>>
 tvars == <<vars, l>>
 ASSUME TLCSet(1, 0)
 Ev(e) == l <= Len(Trace) /\ Trace[l].ev = e /\ l' = l + 1
@@ -21,27 +22,39 @@ BlocksOf(list) == [i \in 1..Len(list) |-> BlockOf(list[i])]
 \* JSON: {"1":"sum",...} -> [1 |-> "sum", ...]  (field ids 0..9)
 TypesOf(j) == [f \in {x \in 0..9 : ToString(x) \in DOMAIN j} |-> j[ToString(f)]]
 
-TraceInit == l = 1 /\ types = EmptyF /\ before = EmptyF
-TReset == Ev("Reset") /\ types' = TypesOf(Line.types) /\ before' = EmptyF
-TFlush == Ev("Flush") /\ UNCHANGED vars
-TBefore == Ev("Before") /\ before' = Line.blocks /\ UNCHANGED types
+TraceInit == l = 1 /\ types = EmptyF /\ before = EmptyF /\ flushed = EmptyF
+TReset == Ev("Reset") /\ types' = TypesOf(Line.types) /\ before' = EmptyF /\ flushed' = EmptyF
+\* a flush: one block per metric goes through the real metricsdata flusher into one file
+MetricKey(b) == ToString(b.metric)
+TFlush ==
+  /\ Ev("Flush")
+  /\ flushed' = [m \in (DOMAIN flushed) \cup {MetricKey(Line.blocks[i]) : i \in 1..Len(Line.blocks)} |->
+                   (IF m \in DOMAIN flushed THEN flushed[m] ELSE << >>)
+                   \o SelectSeq([i \in 1..Len(Line.blocks) |-> IF MetricKey(Line.blocks[i]) = m THEN BlockOf(Line.blocks[i].cells) ELSE {}],
+                                LAMBDA b : b # {})]
+  /\ UNCHANGED <<types, before>>
+\* what a reader observes of a metric is the reference merge of everything that was flushed for it -- before a
+\* compaction (the files as the flusher wrote them) and after it
+ReadsAsFlushed(blocks) ==
+  /\ DOMAIN blocks = DOMAIN flushed
+  /\ \A m \in DOMAIN flushed : CompactionOK(flushed[m], types, RefMerge(BlocksOf(blocks[m]), types))
+TBefore == Ev("Before") /\ ReadsAsFlushed(Line.blocks) /\ before' = Line.blocks /\ UNCHANGED <<types, flushed>>
 
 \* after a compaction every metric reads as the reference merge of what it read before;
-\* the output may be split over several blocks (files) only if they do not share a cell key,
-\* so the blocks read after are merged again (cell-wise) before the comparison
+\* the output may be split over several blocks (files): the blocks read after are merged again (cell-wise)
+\* before the comparison.  (No disjunction inside this action: TLC would branch on it for every pair of blocks.)
 TAfter ==
   /\ Ev("After")
   /\ DOMAIN Line.blocks = DOMAIN before
   /\ \A m \in DOMAIN before :
        LET ins == BlocksOf(before[m])
            outs == BlocksOf(Line.blocks[m])
-           out == UNION {outs[i] : i \in 1..Len(outs)}
-       IN /\ \A i, j \in 1..Len(outs) : i # j => Keys(outs[i]) \cap Keys(outs[j]) = {} \/ TRUE
-          /\ CompactionOK(ins, types, RefMerge(outs, types))
+       IN CompactionOK(ins, types, RefMerge(outs, types))
+  /\ ReadsAsFlushed(Line.blocks)
   /\ UNCHANGED vars
 
 \* rollup: target cells = rollup of the source blocks (exactly once)
-TTypes == Ev("Types") /\ types' = TypesOf(Line.types) /\ UNCHANGED before
+TTypes == Ev("Types") /\ types' = TypesOf(Line.types) /\ UNCHANGED <<before, flushed>>
 TRollup ==
   /\ Ev("Rollup")
   /\ LET src == BlocksOf(Line.source)
